@@ -49,6 +49,7 @@ type c19cfg struct {
 	dumpLen int
 	periodic bool
 	size    int // configured cache size (0 = default; below 1024 the capacity is still 1024)
+	noisy   bool // big answers carry incompressible data (the dump is large on the wire too)
 	big     int // >0: every answer is padded to about this many bytes (blocks of 128 entries grow past the block size limit)
 }
 
@@ -70,7 +71,9 @@ func c19Setup(rc *RunCtx) simrt.Config {
 		c.big = []int{4500, 9000, 20000, 60000}[r.Choose(4)]
 		c.n = []int{20, 100, 128, 130, 200}[r.Choose(5)]
 		c.flips = 0
+		c.noisy = r.Choose(2) == 0
 	}
+	rc.Cfg["big_answers_incompressible"] = c.noisy
 	rc.Cfg["big_answers"] = c.big
 	rc.Cfg["periodic_dump_crash"] = c.periodic
 	rc.Cfg["strategy"] = sname
@@ -292,9 +295,20 @@ func c19Main(rc *RunCtx) {
 		ans := genAnswer(rc.R, q, ttls, true)
 		if c.big > 0 && ans.Rcode == dns.RcodeSuccess {
 			ttl := ttls[simrt.Choose(len(ttls))]
+			lcg := uint32(simrt.Choose(1<<30)) | 1
 			for k := 0; ans.Len() < c.big-300; k++ {
+				body := strings.Repeat(string(rune('a'+i%26)), 247)
+				if c.noisy {
+					// pseudo-random printable text (one PRNG draw seeds it): gzip cannot shrink it much
+					bb := make([]byte, 247)
+					for j := range bb {
+						lcg = lcg*1664525 + 1013904223
+						bb[j] = byte('!' + (lcg>>24)%90)
+					}
+					body = string(bb)
+				}
 				ans.Answer = append(ans.Answer, &dns.TXT{Hdr: dns.RR_Header{Name: q.Question[0].Name, Rrtype: dns.TypeTXT, Class: q.Question[0].Qclass, Ttl: ttl},
-					Txt: []string{fmt.Sprintf("%03d", k%1000) + strings.Repeat(string(rune('a'+i%26)), 247)}})
+					Txt: []string{fmt.Sprintf("%03d", k%1000) + body}})
 			}
 			simrt.Probe("c19.big_answer")
 		}
@@ -488,6 +502,28 @@ func c19Main(rc *RunCtx) {
 			}
 			apiFlush(C)
 		}
+	}
+	// ---- a small file that decompresses to a lot: the loader must stop at the bad block header ----
+	if rc.Viol == nil && simrt.Choose(25) == 0 {
+		var zb bytes.Buffer
+		gw, _ := gzip.NewWriterLevel(&zb, gzip.BestSpeed)
+		gw.Name = "mosdns_cache_v2"
+		hdr := []byte{0xff, 0xff, 0xff, 0xff, 0xff, 0xff, 0xff, 0xff} // block length far above the limit
+		gw.Write(hdr)
+		zeros := make([]byte, 1<<20)
+		for i := 0; i < 96; i++ {
+			gw.Write(zeros)
+		}
+		gw.Close()
+		var m0, m1 runtime.MemStats
+		runtime.ReadMemStats(&m0)
+		apiLoad(C, zb.Bytes())
+		runtime.ReadMemStats(&m1)
+		simrt.Fault("dump_that_decompresses_to_96MiB")
+		if d := m1.TotalAlloc - m0.TotalAlloc; d > 32<<20 {
+			rc.Fail("unbounded_allocation", "loading a %d-byte file that decompresses to 96 MiB behind an invalid block header allocated %d bytes", zb.Len(), d)
+		}
+		apiFlush(C)
 	}
 	// ---- structurally valid dumps with damaged entries ----
 	if rc.Viol == nil && simrt.Choose(3) == 0 {
